@@ -2,7 +2,8 @@ PROPERTY = "C02"
 LEVEL = "proof"
 LEAN_MODULES = ["CifModel.Props.C02"]
 REQUIRED = ["CifModel.C02_text_protocol", "CifModel.C02_fold_line_progress", "CifModel.C02_text_total",
-            "CifModel.C02_flags_semis", "CifModel.C02_char_text_roundtrip"]
+            "CifModel.C02_flags_semis", "CifModel.C02_char_text_roundtrip",
+            "CifModel.C02_analysis_facts", "CifModel.C02_write_char_text"]
 GEN = ["WriterConsts", "ErrCodes"]
 FAMILIES = ["decode", "writeval", "write"]
 TRUSTED_BASE = [
@@ -12,7 +13,7 @@ TRUSTED_BASE = [
     "harness/x_write.c, x_decode.c, cifio.h and tools/gen/{write,writeval,decode}.py: building CIFs through the public API, recording the "
     "walk order, cif_write to memory, cif_parse of the bytes, canonical dumps, the round-trip oracle and the reference text-field encoder",
     "ICU u_fprintf / u_fputc: assumed to succeed and to return the number of UTF-16 units written; UTF-16 -> UTF-8 conversion",
-    "Model/Analyze.lean (group gA) as the model of cif_analyze_string; the two facts of C02_AnalysisFacts are instances of C18_stats_exact",
+    "Model/Analyze.lean (group gA) as the model of cif_analyze_string (the two facts the theorems need about it are proved here: C02_analysis_facts)",
 ]
 ASSUMPTIONS = [
     "the output stream never fails (every u_fprintf/u_fputc succeeds)",
